@@ -26,6 +26,8 @@ CONSTANTS NV,            \* development versions are 1..NV (in cascade order)
           HasHf,         \* TRUE: there is also one hotfix branch (a destination on its own, with its own queue)
           Absent0,       \* branches of the universe (NV, StabV) that do not exist initially
           Admin,         \* TRUE: the administrative jobs create_branch / delete_branch are available
+          AlwaysW,       \* setting always_create_integration_branches
+          AlwaysPRs,     \* setting always_create_integration_pull_requests
           Cmds,          \* commands a user may write in a comment: subset of {"reset", "force_reset"}
           Rewrites,      \* TRUE: users may restart (force-push) a source branch and commit on integration branches
           NP,            \* number of user pull requests
@@ -394,6 +396,10 @@ EvalPrPlan(g, r, p) ==
                     \o <<PushAllFrom(r, Del(r, ws), TRUE)>>, "PullRequestDeclined")
   ELSE IF SrcN(p) \notin DOMAIN r THEN Res(g, Greet(p), "NothingToDo")
   ELSE IF Leq(g, r[SrcN(p)], r[BN(P.dst)]) THEN Res(g, Greet(p), "NothingToDo")
+  \* check_integration_branches: integration data is only created when configured, asked for, or once the
+  \* author has approved
+  ELSE IF ~ (AlwaysW \/ P.mkw \/ AlwaysPRs \/ P.mkprs \/ P.appr \/ n <= 1)
+       THEN Res(g, Greet(p) \o <<CommentOp(p, "request_integration_branches")>>, "RequestIntegrationBranches")
   ELSE IF UseQueue /\ \E j \in 1..n : QWN(p, T[j]) \in DOMAIN r THEN    \* already_in_queue
     LET e == EvalQueuesPlan(g, r, FALSE)
     IN [e EXCEPT !.plan = Greet(p) \o @]
@@ -409,7 +415,7 @@ EvalPrPlan(g, r, p) ==
       g1 == u.g
       wnames == {WN(p, T[j]) : j \in 2..n}
       pushW == IF n > 1 THEN <<PushOp(loc1, wnames)>> ELSE <<>>
-      newKids == {T[j] : j \in {x \in 2..n : <<p, T[x]>> \notin child}}
+      newKids == IF AlwaysPRs \/ P.mkprs THEN {T[j] : j \in {x \in 2..n : <<p, T[x]>> \notin child}} ELSE {}
       mkKids == [j \in 1..Cardinality(newKids) |-> CreatePrOp(p, SetToSortSeq(newKids, LAMBDA x, y : Pos(x) < Pos(y))[j])]
       idc == IF n > 1 /\ (newW # {} \/ newKids # {}) THEN <<CommentOp(p, "integration_data_created")>> ELSE <<>>
       pre == Greet(p) \o pushW \o mkKids \o idc
@@ -521,7 +527,7 @@ Init ==
   /\ G = G0
   /\ refs = [n \in {BN(b) : b \in Branches \ Absent0} |-> IF BranchOf(n) = Hf THEN NBase ELSE Pos0(BranchOf(n)) + 1]
   /\ pr = [p \in 1..NP |-> [st |-> "none", dst |-> Dev(1), appr |-> FALSE, byp |-> FALSE,
-                            wait |-> FALSE, nooct |-> FALSE, after |-> 0]]
+                            wait |-> FALSE, nooct |-> FALSE, after |-> 0, mkw |-> FALSE, mkprs |-> FALSE]]
   /\ child = {}
   /\ bs = <<>>
   /\ greeted = {}
@@ -573,6 +579,8 @@ SetOpt(p, o) ==
      \/ o = "wait" /\ ~ pr[p].wait /\ pr' = [pr EXCEPT ![p].wait = TRUE]
      \/ o = "unwait" /\ pr[p].wait /\ pr' = [pr EXCEPT ![p].wait = FALSE]
      \/ o = "nooct" /\ ~ pr[p].nooct /\ pr' = [pr EXCEPT ![p].nooct = TRUE]
+     \/ o = "mkw" /\ ~ pr[p].mkw /\ pr' = [pr EXCEPT ![p].mkw = TRUE]         \* create_integration_branches
+     \/ o = "mkprs" /\ ~ pr[p].mkprs /\ pr' = [pr EXCEPT ![p].mkprs = TRUE]   \* create_pull_requests
   /\ last' = <<"opt", p, o>>
   /\ UNCHANGED <<G, refs, child, bs, greeted, job, lastmsg, cmd>>
 
